@@ -7,7 +7,7 @@ THEOREMS = {
         "extract_regular_only", "extract_no_overwrite", "extract_confined",
         "frames_authentic", "frames_tamper_rejected", "wrong_key_rejected", "symAead_free",
         "eof_check_contract", "eof_check_err_first_unsound", "frames_authentic_any_reader", "zero_length_frame_rejected", "manifest_decode_total_input",
-        "verify_before_write", "fragment_mutation_rejected", "manifest_edit_safe", "count_edit_consistent_rejected", "preflight_is_per_graph", "extracted_collection_verified",
+        "verify_before_write", "fragment_mutation_rejected", "manifest_edit_safe", "count_edit_consistent_rejected", "preflight_is_per_graph", "preflight_ids_unique", "extracted_collection_verified",
         "staging_promote_atomic", "unpack_staged_no_partial",
         "unpack_plain_partial_output_old", "unpack_enc_direct_partial_output", "unpack_plain_fixed",
         "c20_core", "c20_full_refuted", "c20_fixed", "c20_partial",
@@ -72,6 +72,78 @@ def finding_key(suite, ops, line, msg):
     return "C20:Load:%s" % cls
 
 
+# Clause map: the statement of properties.jsonl split into clauses -> the theorem(s) that carry each clause for ALL
+# inputs, with the hypotheses they carry, or "searched only" / "tie only" with the reason.
+CLAUSES = {
+    "fragment bytes differ (flipped, truncated, extended, substituted, swapped, removed) => Load fails before any write":
+        "fragment_mutation_rejected [hyp: the digest is collision-free on the two byte strings involved] + verify_before_write (every batch is preceded by "
+        "verification of ALL fragments: presence, length, digest, decodability, record count); source shape: Tie.load_order, Tie.verify_covers_all, "
+        "Tie.verify_comparisons (count / size / digest compared by !=, not by an ordering)",
+    "fragment substituted by a re-encoded, RE-HASHED one (manifest digest and sizes updated) whose records are inconsistent => rejected before any write":
+        "preflight_is_per_graph (accept => both endpoints of every edge are node ids of the SAME graph; cross-graph and dangling endpoints refused) and "
+        "preflight_ids_unique (accept => node ids of each graph pairwise distinct) [hyp of both: the record checker is idCheck started empty per graph - "
+        "Tie.verify_covers_all: resolverScope = per-graph]; a re-hashed fragment whose records are CONSISTENT is a different valid collection: the manifest "
+        "is not authenticated, no claim (named assumption)",
+    "manifest differs: counts, hashes, sizes, paths, codec, totals":
+        "manifest_edit_safe (ANY manifest with an entry the directory does not back is refused before a write: count, sha256, compressed_bytes, missing "
+        "path, undecodable or unknown codec, graph_count, node/edge totals; a path pointing at another file only passes with identical bytes [hyp: collision-"
+        "free digest]) + count_edit_consistent_rejected (count lowered or raised together with the totals) + load_rejects_unbound via c20_core",
+    "manifest differs: bytes before / after the JSON value":
+        "manifest_decode_total_input [hyp: the JSON value parser reads a prefix]: the extended file decodes iff the tail is JSON white space only; "
+        "Tie.json_decoders_total (Unmarshal on the whole slice)",
+    "manifest differs but stays self-consistent (white space, unbound fields, path aliases, entries reordered) => may load, graph must be the original":
+        "searched only: every such edit of the generator must give `ok` with a graph equal to the original up to ids and creation order (monitor); the model "
+        "of Load does not read the unbound fields (listed in manifest_edit_safe's docstring), there is no Lean JSON model",
+    "archive frames differ: truncated, extended, reordered, duplicated, spliced across archives, frames inserted, type flipped":
+        "frames_authentic / frames_tamper_rejected (accepted stream = exactly the written one, header hash included) [hyp: symbolic AEAD law openIt<->sealIt, "
+        "Aead.Free (sealing injective in key, AAD, plaintext), no forgery: every ciphertext valid under the key was produced by the writer, one archive per key]; "
+        "frames_authentic_any_reader + eof_check_contract (whatever chunking a contract-abiding io.Reader uses; err-first order refuted: "
+        "eof_check_err_first_unsound); zero_length_frame_rejected [hyp: sealed ciphertexts carry a tag of tagLen > 0 bytes]; source shape: Tie.frame_aad_binds, "
+        "Tie.read_sites_n_first, Tie.frame_no_accept_before_open",
+    "archive bytes differ at byte level (magic, header length, header JSON, base64 key, length fields, ciphertext bits)":
+        "searched only: every byte substitution / truncation length / appended tail of real archives (exhaustive in the thorough tier) must give an error with an "
+        "empty mutation log; the byte framing, JSON header and base64 are not modelled (the model starts at whole frames with a tail flag)",
+    "key material: an encrypted archive opens only with the matching private key":
+        "wrong_key_rejected [hyp: Aead.Free; that another private key yields another AEAD key is the KEM's correctness, trusted]; malformed key files "
+        "(truncated, wrong type / format / KEM, public key in place of private, not base64): searched only; a key file followed by extra bytes parses to the "
+        "same key (decoder takes the first value: recorded in Tie.json_decoders_total, judged as harmless)",
+    "before any node or relationship is written (directory load)":
+        "verify_before_write, load_batch_implies / load_no_batch_of_fail (c20_core clause a); Tie.load_order ties the statement order of Load; the fake "
+        "database's write-attempt log must be empty on every rejected input (monitor)",
+    "before any node or relationship is written (archive load)":
+        "tie only: Load(ArchiveReader) = unpack into a private temp directory (removed on failure) then the directory load; the composition is not a Lean "
+        "definition; frames_* + extracted_collection_verified + the directory clauses cover the parts, the empty-log oracle covers the whole",
+    "no partial output left in the destination: Unpack (staged, forced)":
+        "staging_promote_atomic (every intermediate state: destination old / absent between the two renames / complete and validated; failure => initial "
+        "state) + unpack_staged_no_partial, for every validator and frame outcome; extracted_collection_verified [hyp: manifest validates] (accept => every "
+        "manifest file was extracted under its own path with the manifest's size and digest); Tie.unpack_stages, Tie.extracted_validation_keys",
+    "no partial output left in the destination: plain UnpackTar":
+        "unpack_plain_fixed (live: staged since commit 1a3806b; Tie.unpack_stages + Tie.extract_guards pin the staged shape); "
+        "unpack_plain_partial_output_old keeps the refutation for the pre-repair definition",
+    "no partial output left in the destination: direct UnpackEncryptedCollectionArchive":
+        "REFUTED: unpack_enc_direct_partial_output (witness), c20_full_refuted; known finding "
+        "C20:UnpackEncryptedCollectionArchive:output-left-on-late-stream-error replayed every run; what holds: c20_partial (whatever is left is a complete "
+        "regular entry at a sanitised path inside the destination); c20_fixed proves the clause for the staged replacement (hooks/C20-fix2.patch proposed)",
+    "never creates or overwrites a file outside the output directory, whatever entry names":
+        "sanitize_safe (ALL strings: accepted => non-empty, relative, no backslash, no empty / . / .. component, Clean(out/p) = Clean(out)/p for every "
+        "absolute out) + sanitize_rejects + clean_spec (path.Clean model: shape and idempotence) + extract_confined; valid UTF-8 names only (assumption)",
+    "... whatever link types or sizes the archive declares":
+        "extract_regular_only (only complete bodies of typeflag '0' / NUL entries, at sanitised paths; links, devices, fifos, directories, short or oversize "
+        "bodies create nothing that stays) + extract_no_overwrite (O_EXCL + duplicate-name refusal; for every extra refusal of the OS); Tie.extract_guards",
+    "searched only (tie)":
+        "that the Lean transcriptions are what the Go code does: c20path (sanitizeArchivePath, path.Clean, filepath.Join, lookup-key agreement on every "
+        "generated and every short string), c20frames (real HPKE reader vs model on every frame script x reader behaviour) are line-diffed; Load, the "
+        "extraction loop and the unpack protocols are judged on observables (write log, sentinel tree, destination listing, graph equality) - no line diff; "
+        "byte-level archive / manifest / fragment mutations, tar parsing, codecs, JSON, malformed keys, invalid UTF-8 names; the fact tables of Tie.* are "
+        "syntactic (go/ast) and are cross-checked by seeded regressions (rounds 1-4 in corpus/C20)",
+    "named assumptions":
+        "symbolic ideal AEAD with a fresh key per archive (HPKE / ML-KEM / AES-GCM trusted); SHA-256 collision-free on the inputs of one run; the manifest is "
+        "NOT authenticated: a consistently re-written collection (re-hashed fragments with valid records, dropped graphs) is a different valid input; the input "
+        "directory does not change between the verification pass and the load pass; unix path semantics, valid UTF-8 names in the proofs; frame index does not "
+        "wrap; a reader error other than EOF aborts",
+}
+
+
 def extra_coverage(ctx, stats):
     """Small-scope enumerations: measured count next to the closed formula (exhaustive = they agree)."""
     L = 4 if ctx.tier == "quick" else 6
@@ -82,6 +154,8 @@ def extra_coverage(ctx, stats):
     want_scripts = (sum(7 ** k for k in range(1, Lf + 1)) + sum(7 ** k for k in range(1, (3 if ctx.tier == "quick" else Lf) + 1))) * seeds
     got_scripts = stats.get("gen.gen.exhaustive_scripts", 0)
     return {
+        "clause_map": CLAUSES,
+        "refuted_instances": ["no-partial-output for the direct UnpackEncryptedCollectionArchive (unpack_enc_direct_partial_output, c20_full_refuted)"],
         "small_scope": {
             "paths_over_7_symbols_up_to_len_%d" % L: {"enumerated": got_paths, "formula": want_paths},
             "frame_sequences_over_7_frames_up_to_len_%d" % Lf: {"enumerated": got_scripts, "formula": want_scripts},
@@ -156,18 +230,25 @@ SPEC = {
 
 MANIFEST = {
     "category": "proof",
-    "technique": "Lean 4 proofs on transcribed models (path sanitiser for all strings, extraction loop, frame protocol over a symbolic ideal AEAD, Load "
-                 "ordering, staging protocol) + go/ast fact table re-proved by decide + exhaustive byte-mutation / hostile-archive correspondence with the Go code",
-    "text": "Lean theorems, for ALL entry names: whatever sanitizeArchivePath accepts is a non-empty relative path without `..`, `.` or empty components "
-            "whose join with any absolute output directory is literally inside it (Go's path.Clean modelled and compared on every generated name); the "
-            "extraction loop creates regular files only, never overwrites (O_EXCL + duplicate refusal) and only at sanitised paths; for ALL frame "
-            "sequences over a symbolic ideal AEAD an accepted sequence is exactly the written one (so truncation, extension, reordering, duplication, "
-            "cross-archive splicing and a wrong key are rejected); in the model of Load every BatchOperation is preceded by successful verification "
-            "of ALL fragments, a fragment whose bytes changed is rejected under collision-free digests, and any manifest whose count/hash/size/path/"
-            "codec fields disagree with the directory is rejected before a write; the staged Unpack never exposes a partial destination. The statement "
-            "order of Load, O_EXCL, the typeflag allow-list, the AAD composition and the staging order are re-extracted from the source on every run. "
-            "Clause (c) holds for plain UnpackTar since the F11 repair (staging + promote; live theorem unpack_plain_fixed, source shape re-extracted "
-            "every run) and is REFUTED for the direct UnpackEncryptedCollectionArchive only (known finding, replayed every run; proved for the staged Unpack).",
-    "note": "Trusted: crypto primitives (symbolic AEAD), SHA-256 collision-freeness, archive/tar + codecs + JSON (partial decoders), OS O_EXCL/rename. "
-            "Byte-level mutations are a search (exhaustive on small dumps in the thorough tier), not part of the proof. Unix paths only.",
+    "technique": "Lean 4 proofs on transcribed models (path sanitiser and path.Clean for all strings, extraction loop, frame protocol over a symbolic ideal "
+                 "AEAD and over the io.Reader contract, Load ordering and record preflight, manifest decoding, extracted-collection validation, staging "
+                 "protocol) + go/ast fact tables re-proved by decide + exhaustive byte-mutation / hostile-archive / reader-behaviour correspondence with the Go code",
+    "text": "Per clause (coverage.clause_map in the evidence): (names) for ALL valid-UTF-8 strings whatever sanitizeArchivePath accepts is a non-empty relative "
+            "path with only ordinary components whose join with any absolute output directory is literally inside it; the extraction loop creates complete "
+            "bodies of regular entries only, never overwrites, only at sanitised paths, for every extra refusal of the OS. (frames) over a symbolic ideal AEAD "
+            "with freeness and no-forgery hypotheses an accepted frame stream is exactly the written one - truncation, extension, reordering, duplication, "
+            "splicing, inserted frames (zero-length included, given a non-empty tag) and a wrong key are refused - whatever chunking a contract-abiding "
+            "io.Reader uses. (load) every BatchOperation of the Load model is preceded by verification of ALL fragments; changed fragment bytes are refused "
+            "under a collision-free digest; any manifest entry the directory does not back (count, digest, size, path, codec, totals - also lowered "
+            "consistently) is refused before a write; re-hashed fragments with cross-graph / dangling endpoints or duplicate ids are refused by the per-graph "
+            "preflight; manifest.json must be the whole file up to JSON white space (for a prefix-reading parser). (unpack) the staged Unpack and, since "
+            "commit 1a3806b, plain UnpackTar never expose or leave a partial destination, and an accepted collection has every manifest file under its own "
+            "path with the manifest's size and digest. REFUTED: the direct UnpackEncryptedCollectionArchive leaves its extraction behind on a late stream "
+            "error (known finding, replayed every run; proved for the staged replacement). Source shapes (statement order of Load, comparison operators, "
+            "resolver scope, O_EXCL, typeflag allow-list, AAD, n-before-err, no return before Open, decoder shapes, staging order) are re-extracted every run.",
+    "note": "Hypotheses are part of the claim: symbolic AEAD (law, freeness, no forgery, fresh key per archive), SHA-256 collision-free on the inputs of a "
+            "run, valid UTF-8 names, unix paths, prefix-reading JSON parser, unchanged input directory during one Load. The manifest is not authenticated: "
+            "a consistently re-written collection is a different valid input. Searched only: byte-level mutations of archives / manifests / fragments "
+            "(exhaustive on small dumps in the thorough tier), tar / codec / JSON parsing, malformed key files, self-consistent manifest edits (graph must "
+            "equal the original), the archive-load composition, invalid UTF-8 names. Load / unpack models are tied on observables, path and frame models by line diff.",
 }
